@@ -42,7 +42,7 @@ pub struct World {
 }
 
 /// literal groups: members of one group collide under lower-casing / whitespace collapsing
-pub const GROUPS: &[&[&str]] = &[&["a", "A"], &["a b", "a  b"], &["ab", "AB", "Ab"], &["x y", "x\ty"]];
+pub const GROUPS: &[&[&str]] = &[&["a", "A"], &["a b", "a  b"], &["ab", "AB", "Ab"], &["x y", "x\ty"], &["o'b  x", "o'b x"], &["o'B", "o'b"]];
 
 fn group_kind(g: usize, i: usize, j: usize) -> &'static str {
     let (a, b) = (GROUPS[g][i], GROUPS[g][j]);
@@ -142,7 +142,7 @@ fn create_sql(i: usize) -> String {
     format!("CREATE TABLE {} ({} INTEGER, {} VARCHAR(12), {} INTEGER)", tn(i), tc(i, 'a'), tc(i, 'b'), tc(i, 'c'))
 }
 fn insert_sql(i: usize, rows: &[(i64, String, i64)]) -> String {
-    format!("INSERT INTO {} VALUES {}", tn(i), rows.iter().map(|(a, b, c)| format!("({}, '{}', {})", a, b, c)).collect::<Vec<_>>().join(", "))
+    format!("INSERT INTO {} VALUES {}", tn(i), rows.iter().map(|(a, b, c)| format!("({}, '{}', {})", a, b.replace('\'', "''"), c)).collect::<Vec<_>>().join(", "))
 }
 
 impl World {
@@ -194,7 +194,7 @@ fn raw(s: &str) -> Tok {
     Tok::Raw(s.to_string())
 }
 fn lit_tok(s: &str) -> Tok {
-    Tok::Raw(format!("'{}'", s))
+    Tok::Raw(format!("'{}'", s.replace('\'', "''")))
 }
 
 /// `( SELECT <item> FROM x WHERE x_b = LIT )`
@@ -454,7 +454,7 @@ impl Write {
     pub fn sql(&self) -> Vec<String> {
         match self {
             Write::Insert { t, row } => vec![insert_sql(*t, std::slice::from_ref(row))],
-            Write::UpdateB { t, a, b } => vec![format!("UPDATE {} SET {} = '{}' WHERE {} = {}", tn(*t), tc(*t, 'b'), b, tc(*t, 'a'), a)],
+            Write::UpdateB { t, a, b } => vec![format!("UPDATE {} SET {} = '{}' WHERE {} = {}", tn(*t), tc(*t, 'b'), b.replace('\'', "''"), tc(*t, 'a'), a)],
             Write::UpdateC { t, a, c } => vec![format!("UPDATE {} SET {} = {} WHERE {} = {}", tn(*t), tc(*t, 'c'), c, tc(*t, 'a'), a)],
             Write::Delete { t, a } => vec![match a {
                 Some(a) => format!("DELETE FROM {} WHERE {} = {}", tn(*t), tc(*t, 'a'), a),
@@ -549,7 +549,7 @@ struct Stored {
 // ---------------------------------------------------------------------------------------------
 // generator
 
-const WORDS: &[&str] = &["a", "A", "a b", "a  b", "ab", "AB", "Ab", "x y", "x\ty", "b"];
+const WORDS: &[&str] = &["a", "A", "a b", "a  b", "ab", "AB", "Ab", "x y", "x\ty", "b", "o'b  x", "o'b x", "o'B", "o'b"];
 
 fn gen_row(t: &mut Tape) -> (i64, String, i64) {
     (t.below(4) as i64, t.pick(WORDS).to_string(), t.below(4) as i64)
